@@ -80,6 +80,38 @@ var universe = []spec{
 
 const maxExp = 4
 
+// extra objects used only by the scripted bulk histories (garbage volume >> remover batch size 2)
+func init() {
+	add := func(sp spec) { universe = append(universe, sp) }
+	for i := 1; i <= 6; i++ {
+		add(spec{name: fmt.Sprintf("G%d", i), k: kReg, idByte: byte(0x31 + i)})
+		add(spec{name: fmt.Sprintf("TG%d", i), k: kTomb, target: fmt.Sprintf("G%d", i), exp: 3, idByte: byte(0x21 + i)})
+	}
+	for i := 1; i <= 5; i++ {
+		add(spec{name: fmt.Sprintf("E%d", i), k: kReg, exp: uint64(1 + i%2), idByte: byte(0x41 + i)})
+	}
+	for i := 1; i <= 3; i++ {
+		add(spec{name: fmt.Sprintf("LE%d", i), k: kLock, target: fmt.Sprintf("E%d", i), exp: 3, idByte: byte(0x11 + i)})
+	}
+	for i := 1; i <= 7; i++ {
+		add(spec{name: fmt.Sprintf("Z%d", i), k: kReg, cnr: 1, exp: uint64(i % 2 * 2), idByte: byte(0x51 + i)})
+	}
+	// a split object whose virtual parent sorts AFTER its children (no batch blocking)
+	add(spec{name: "P2", k: kVirtual, idByte: 0xe0})
+	add(spec{name: "K1", k: kChild, parent: "P2", idByte: 0x61})
+	add(spec{name: "K2", k: kChild, parent: "P2", idByte: 0x62})
+	add(spec{name: "TP2", k: kTomb, target: "P2", exp: 3, idByte: 0x91})
+}
+
+var bulkScripts = [][]string{
+	// everything, natural order, then the container removal
+	{"G1", "G2", "G3", "G4", "G5", "G6", "E1", "E2", "E3", "E4", "E5", "K1", "K2", "Z1", "Z2", "Z3", "Z4", "Z5", "Z6", "Z7",
+		"LE1", "LE2", "LE3", "TG1", "TG2", "TG3", "TG4", "TG5", "TG6", "TP2", "rmB"},
+	// same with the small-universe objects and epoch ticks mixed in
+	{"R1", "L1", "G1", "G2", "E1", "LE1", "tick", "G3", "G4", "TG1", "TG2", "TG3", "Z1", "Z2", "Z3", "Z4", "rmB", "tick", "E2", "E3",
+		"K1", "K2", "TP2", "TG4", "R2", "T2", "R3", "L3", "markR3", "G5", "G6", "TG5", "TG6"},
+}
+
 type uobj struct {
 	spec
 	id   oid.ID
@@ -122,6 +154,9 @@ func buildUniverse() {
 	h := h32("owner")
 	owner = user.NewFromScriptHash([20]byte(h[:20]))
 	for _, s := range universe {
+		if byName[s.name] != nil {
+			panic("duplicate universe name " + s.name)
+		}
 		id := oid.ID(h32("oid-" + s.name))
 		id[0] = s.idByte
 		u := &uobj{spec: s, id: id, cnr: cnrs[s.cnr]}
@@ -195,6 +230,36 @@ func buildAlphabet() {
 	}
 	alphabet = append(alphabet, op{k: oMark, obj: "R3"}, op{k: oMarkRedundant, obj: "R2"},
 		op{k: oRmCnr, cnr: 0}, op{k: oRmCnr, cnr: 1}, op{k: oTick})
+	nEnum = len(alphabet)
+	// ops used only by the scripted bulk histories
+	for _, sp := range universe {
+		if sp.k != kVirtual && opIndex("Put("+sp.name+")") < 0 {
+			alphabet = append(alphabet, op{k: oPut, obj: sp.name})
+		}
+	}
+}
+
+var nEnum int
+
+func scriptSeq(r *ev.Run, script []string) []int {
+	var seq []int
+	for _, t := range script {
+		n := "Put(" + t + ")"
+		switch t {
+		case "rmB":
+			n = "RemoveContainer(cB)"
+		case "tick":
+			n = "Epoch+1"
+		case "markR3":
+			n = "MarkGarbage(R3)"
+		}
+		i := opIndex(n)
+		if i < 0 {
+			r.Fatal("bulk script: unknown op %s", n)
+		}
+		seq = append(seq, i)
+	}
+	return seq
 }
 
 // ---------------------------------------------------------------------------------------------
@@ -696,12 +761,17 @@ func main() {
 	}
 	exhaustive := true
 	depthDone := 0
-	tick := len(alphabet) - 1
+	// scripted bulk histories first: garbage, expired objects and removed-container contents of 15-30
+	// objects against a remover batch of 2
+	for _, sc := range bulkScripts {
+		c.run(scriptSeq(r, sc), false)
+	}
+	tick := nEnum - 1
 	for d := 0; d <= maxDepth; d++ {
 		// every sequence of length d; an operation other than Epoch+1 is used at most once (repeating
 		// a put / mark / container removal is a no-op or a rejected duplicate)
 		var seqs [][]int
-		enumx.Seqs(len(alphabet), d, func(s []int) bool {
+		enumx.Seqs(nEnum, d, func(s []int) bool {
 			seen := uint64(0)
 			for _, o := range s {
 				if o != tick && seen&(1<<uint(o)) != 0 {
@@ -745,7 +815,7 @@ func main() {
 		}
 		return a
 	}())
-	r.Rule("every operation sequence of length <= depth over the 17-op alphabet (12 puts: regular +- expiration, two split children of two parents, 4 tombstones, 2 locks; 2 garbage marks; 2 container removals; epoch tick; non-tick ops used at most once) applied to a fresh real one-shard engine, then (epoch+1; new-epoch handler; remover pass)* until the raw metabase dump + blob set is unchanged for 2 rounds beyond every expiration; non-trivial = distinct expectation vector with at least one object/container that must be removed")
+	r.Rule("2 scripted bulk histories (31-33 operations: 6 tombstoned, 5 expiring (3 of them locked), 7 removed-container objects, a tombstoned split object, mixed with epoch ticks; garbage volume 15-30 objects vs remover batch 2) + every operation sequence of length <= depth over the 17-op alphabet (12 puts: regular +- expiration, two split children of two parents, 4 tombstones, 2 locks; 2 garbage marks; 2 container removals; epoch tick; non-tick ops used at most once) applied to a fresh real one-shard engine, then (epoch+1; new-epoch handler; remover pass)* until the raw metabase dump + blob set is unchanged for 2 rounds beyond every expiration; non-trivial = distinct expectation vector with at least one object/container that must be removed")
 	r.Exhaustive(exhaustive)
 	r.Assume("one shard, no write-cache, remover batch size 2, GC jobs invoked synchronously (ticker interval 24h); payments disabled",
 		"operation acceptance is the engine's return value; the model (which objects must go and why) is written from the property text",
